@@ -48,6 +48,7 @@ Inductive texpr :=
 Inductive unop := UPlus | UMinus | UNot | UExists | UDistinct.
 Inductive ckind := CNum (k : numkind) | CStr | CBytes | CBool.
 Inductive seqkind := QTuple | QArray | QSet.
+Inductive cmod := CNone | COpt | CReq.               (* TypeCast.cardinality_mod *)
 Inductive pstep := SPtr (bw : bool) (n : N) | SAt (n : N) | SIs (t : texpr).
 
 Inductive expr :=
@@ -63,7 +64,7 @@ Inductive expr :=
 | ESeq (k : seqkind) (es : list expr)
 | ENamedTuple (fs : list (N * expr))
 | ECall (m : option N) (f : N) (args : list expr) (kw : list (N * expr))
-| ECast (opt : bool) (t : texpr) (e : expr)
+| ECast (cm : cmod) (t : texpr) (e : expr)
 | EIndir (e : expr) (ixs : list (bool * option expr * option expr))   (* (slice?, a, b); index = (false, Some i, None) *)
 | EDetached (e : expr)
 | EGlobal (m : option N) (n : N)
@@ -215,6 +216,41 @@ Definition pp_el (f : expr -> list item) (el : N * option expr) : list item :=
   let (n, c) := el in
   [IT (TId n)] ++ match c with Some x => [ISp; S S_ASSIGN; ISp] ++ f x | None => [] end.
 
+(* codegen._prefix_swallows_op: would [e], printed bare right before the operator, capture it?  The printer
+   decides with its own two operator sets (the cg_ constants of Gen_Grammar), not with the grammar tables. *)
+Inductive lctx := LBin (o : N) | LIs | LBrace.
+
+Definition cg_weaker (c : lctx) : bool :=
+  match c with LBin o => existsb (N.eqb o) cg_weaker_than_not | _ => false end.
+Definition cg_tighter (c : lctx) : bool :=
+  match c with LBin o => existsb (N.eqb o) cg_tighter_than_uminus | LBrace => cg_brace_tighter | LIs => false end.
+
+Fixpoint swallows (c : lctx) (e : expr) : bool :=
+  match e with
+  | EShape y [] => swallows c y                             (* _skip_empty_shapes *)
+  | EUn UNot _ => negb (cg_weaker c)
+  | EUn o x => if cg_tighter c then true else if un_word o then false else swallows c x
+  | ECast _ _ x => match c with LBrace => true | _ => swallows c x end
+  | EDetached x => swallows c x
+  | EConst (CNum _) (Datatypes.S _) _ => cg_tighter c
+  | _ => false
+  end.
+
+(* visit_DetachedExpr: the operand is parenthesised when it is an indirection, a shape or a path with steps *)
+Fixpoint det_paren (e : expr) : bool :=
+  match e with
+  | EShape y [] => det_paren y
+  | EIndir _ _ | EShape _ _ | EPathExpr _ _ => true
+  | EPathRef _ _ (_ :: _) => true
+  | EPathPartial (_ :: _ :: _) => true
+  | _ => false
+  end.
+
+Definition is_uplus (e : expr) : bool := match e with EUn UPlus _ => true | _ => false end.
+
+Definition wrap_if (b : bool) (l : list item) : list item :=
+  if b then [S S_LPAREN] ++ l ++ [S S_RPAREN] else l.
+
 Fixpoint pp_items (e : expr) {struct e} : list item :=
   match e with
   | EConst k nneg v => repeat (S S_MINUS) nneg ++ [IT (const_tok k v)]
@@ -225,11 +261,14 @@ Fixpoint pp_items (e : expr) {struct e} : list item :=
       (if head_bare h then pp_items h else [S S_LPAREN] ++ pp_items h ++ [S S_RPAREN]) ++ pp_steps ss
   | EUn o x =>
       if un_word o then [S (un_sym o); ISp; S S_LPAREN] ++ pp_items x ++ [S S_RPAREN]
-      else [S (un_sym o)] ++ pp_items x
+      else [S (un_sym o)] ++
+           (match o with UPlus => if is_uplus x then [ISp] else [] | _ => [] end) ++      (* `+ +x`, never `++x` *)
+           pp_items x
   | EBin o l r =>
-      [S S_LPAREN] ++ pp_items l ++ [ISp] ++ sym_items (op_syms o) ++ [ISp] ++ pp_items r ++ [S S_RPAREN]
+      [S S_LPAREN] ++ wrap_if (swallows (LBin o) l) (pp_items l) ++ [ISp] ++ sym_items (op_syms o) ++ [ISp] ++
+      pp_items r ++ [S S_RPAREN]
   | EIs neg l t =>
-      [S S_LPAREN] ++ pp_items l ++ [ISp; S S_IS] ++ (if neg then [ISp; S S_NOT] else []) ++ [ISp] ++
+      [S S_LPAREN] ++ wrap_if (swallows LIs l) (pp_items l) ++ [ISp; S S_IS] ++ (if neg then [ISp; S S_NOT] else []) ++ [ISp] ++
       pp_type true t ++ [S S_RPAREN]
   | EIf true c a b =>
       [S S_LPAREN] ++ pp_items a ++ [ISp; S S_IF; ISp] ++ pp_items c ++ [ISp; S S_ELSE; ISp] ++ pp_items b ++ [S S_RPAREN]
@@ -247,12 +286,20 @@ Fixpoint pp_items (e : expr) {struct e} : list item :=
       pp_name m f ++ [S S_LPAREN] ++ comma_sep (fun x => pp_items x) args ++
       (match args, kw with _ :: _, _ :: _ => [S S_COMMA; ISp] | _, _ => [] end) ++
       comma_sep (pp_field (fun x => pp_items x)) kw ++ [S S_RPAREN]
-  | ECast opt t x =>
-      [S S_LANGBRACKET] ++ (if opt then [S S_OPTIONAL; ISp] else []) ++ pp_type false t ++ [S S_RANGBRACKET] ++ pp_items x
+  | ECast cm t x =>
+      [S S_LANGBRACKET] ++
+      (match cm with CNone => [] | COpt => [S S_OPTIONAL; ISp] | CReq => [S S_REQUIRED; ISp] end) ++
+      pp_type false t ++ [S S_RANGBRACKET] ++ pp_items x
   | EIndir x ixs => [S S_LPAREN] ++ pp_items x ++ [S S_RPAREN] ++ flat_map (pp_ix (fun x => pp_items x)) ixs
-  | EDetached x => [S S_DETACHED; ISp] ++ pp_items x
+  | EDetached x => [S S_DETACHED; ISp] ++ wrap_if (det_paren x) (pp_items x)
   | EGlobal m n => [S S_GLOBAL; ISp] ++ pp_name m n
-  | EShape x els => pp_items x ++ [ISp; S S_LBRACE; ISp] ++ comma_sep (pp_el (fun x => pp_items x)) els ++ [ISp; S S_RBRACE]
+  | EShape x els =>
+      match els with
+      | [] => pp_items x                                            (* a shape without elements prints as its subject *)
+      | _ :: _ =>
+          wrap_if (swallows LBrace x) (pp_items x) ++ [ISp; S S_LBRACE; ISp] ++
+          comma_sep (pp_el (fun x => pp_items x)) els ++ [ISp; S S_RBRACE]
+      end
   end.
 
 Definition pp (e : expr) : list tok := toks (pp_items e).
@@ -452,13 +499,13 @@ with parse_operand (fuel : nat) (ts : list tok) {struct fuel} : option (expr * l
             | None => None
             end
           else if N.eqb s S_LANGBRACKET then
-            let opt := starts S_OPTIONAL r in
-            match parse_type f (if opt then tl r else r) with
+            let cm := if starts S_OPTIONAL r then COpt else if starts S_REQUIRED r then CReq else CNone in
+            match parse_type f (match cm with CNone => r | _ => tl r end) with
             | Some (t, r2) =>
                 match expect S_RANGBRACKET r2 with
                 | Some r3 =>
                     match parse_expr f (Some p_typecast) r3 with
-                    | Some (e, r4) => Some (ECast opt t e, r4)
+                    | Some (e, r4) => Some (ECast cm t e, r4)
                     | None => None
                     end
                 | None => None
@@ -801,7 +848,7 @@ Fixpoint tight (c : ctx) (e : expr) : bool :=
   | EPathPartial ss => steps_ok c (tl ss)
   | EPathExpr _ ss => steps_ok c ss
   | EIndir _ _ => shifts c (prec_of S_LBRACKET)
-  | EShape x _ => tight c x && shifts c (prec_of S_LBRACE)
+  | EShape x _ => (swallows LBrace x || tight c x) && shifts c (prec_of S_LBRACE)
   | _ => true
   end.
 
@@ -849,10 +896,10 @@ Fixpoint wf (e : expr) : bool :=
   | EBin o l r =>
       wf l && wf r &&
       match binop_row binop_table o with
-      | Some (ss, p) => rspine l (sym_toks ss) && tight (Some p) r
+      | Some (ss, p) => (swallows (LBin o) l || rspine l (sym_toks ss)) && tight (Some p) r
       | None => false
       end
-  | EIs neg l t => wf l && wf_type t && rspine l [TSym S_IS]
+  | EIs neg l t => wf l && wf_type t && (swallows LIs l || rspine l [TSym S_IS])
   | EIf true c a b => wf c && wf a && wf b && rspine a [TSym S_IF] && tight (Some p_ifelse) b
   | EIf false c a b => wf c && wf a && wf b && tight (Some p_ifthenelse) b
   | ESeq _ es => (fix go (l : list expr) : bool := match l with [] => true | x :: r => wf x && go r end) es
@@ -876,10 +923,10 @@ Fixpoint wf (e : expr) : bool :=
               else match a, b with Some _, None => true | _, _ => false end) &&
              go r
          end) ixs
-  | EDetached x => wf x && tight (Some p_detached) x
+  | EDetached x => wf x && (det_paren x || tight (Some p_detached) x)
   | EGlobal _ _ => true
   | EShape x els =>
-      wf x && rspine x [TSym S_LBRACE] && match els with [] => false | _ => true end &&
+      wf x && (swallows LBrace x || rspine x [TSym S_LBRACE]) && match els with [] => false | _ => true end &&
       (fix go (l : list (N * option expr)) : bool :=
          match l with
          | [] => true
@@ -887,38 +934,59 @@ Fixpoint wf (e : expr) : bool :=
          end) els
   end.
 
-(* lexical side condition: `+` directly followed by `+` is the concatenation operator *)
-Fixpoint lex_ok (e : expr) : bool :=
+(* [image e]: e is built the way the parser builds trees -- purely structural, no precedence involved:
+   boolean literals are 0/1 and only numeric literals carry signs; a partial path starts with a pointer
+   step; Path[expr; steps] has steps and its head is not itself a path; unary minus never sits on a numeric
+   literal (the parser folds it); operator ids exist in the table; named tuples, indirections, shapes and
+   collection types are non-empty; slices have at least one bound; named arguments are distinct. *)
+Fixpoint image (e : expr) : bool :=
   match e with
-  | EUn o x => lex_ok x && match o, x with UPlus, EUn UPlus _ => false | _, _ => true end
-  | EBin _ l r => lex_ok l && lex_ok r
-  | EIs _ l _ => lex_ok l
-  | EIf _ c a b => lex_ok c && lex_ok a && lex_ok b
-  | EPathExpr h _ => lex_ok h
-  | ESeq _ es => (fix go (l : list expr) : bool := match l with [] => true | x :: r => lex_ok x && go r end) es
-  | ENamedTuple fs => (fix go (l : list (N * expr)) : bool := match l with [] => true | (_, x) :: r => lex_ok x && go r end) fs
+  | EConst k nneg v =>
+      match k with
+      | CNum _ => true
+      | CBool => match nneg with O => N.ltb v 2 | _ => false end
+      | _ => match nneg with O => true | _ => false end
+      end
+  | EParam _ => true
+  | EPathRef _ _ ss => forallb wf_step ss
+  | EPathPartial ss =>
+      match ss with SPtr _ _ :: _ | SAt _ :: _ => true | _ => false end && forallb wf_step ss
+  | EPathExpr h ss =>
+      image h && negb (is_path h) && match ss with [] => false | _ => true end && forallb wf_step ss
+  | EUn o x => image x && match o with UMinus => negb (is_numconst x) | _ => true end
+  | EBin o l r => image l && image r && match binop_row binop_table o with Some _ => true | None => false end
+  | EIs _ l t => image l && wf_type t
+  | EIf _ c a b => image c && image a && image b
+  | ESeq _ es => (fix go (l : list expr) : bool := match l with [] => true | x :: r => image x && go r end) es
+  | ENamedTuple fs =>
+      match fs with [] => false | _ => true end &&
+      (fix go (l : list (N * expr)) : bool := match l with [] => true | (_, x) :: r => image x && go r end) fs
   | ECall _ _ args kw =>
-      (fix go (l : list expr) : bool := match l with [] => true | x :: r => lex_ok x && go r end) args &&
-      (fix go (l : list (N * expr)) : bool := match l with [] => true | (_, x) :: r => lex_ok x && go r end) kw
-  | ECast _ _ x => lex_ok x
+      (fix go (l : list expr) : bool := match l with [] => true | x :: r => image x && go r end) args &&
+      (fix go (l : list (N * expr)) : bool := match l with [] => true | (_, x) :: r => image x && go r end) kw &&
+      nodup_names kw
+  | ECast _ t x => wf_type t && image x
   | EIndir x ixs =>
-      lex_ok x &&
+      image x && negb (is_indir x) && match ixs with [] => false | _ => true end &&
       (fix go (l : list (bool * option expr * option expr)) : bool :=
          match l with
          | [] => true
-         | (_, a, b) :: r =>
-             (match a with Some x => lex_ok x | None => true end) &&
-             (match b with Some x => lex_ok x | None => true end) && go r
+         | (sl, a, b) :: r =>
+             (match a with Some x => image x | None => true end) &&
+             (match b with Some x => image x | None => true end) &&
+             (if sl then match a, b with None, None => false | _, _ => true end
+              else match a, b with Some _, None => true | _, _ => false end) &&
+             go r
          end) ixs
-  | EDetached x => lex_ok x
+  | EDetached x => image x
+  | EGlobal _ _ => true
   | EShape x els =>
-      lex_ok x &&
+      image x && match els with [] => false | _ => true end &&
       (fix go (l : list (N * option expr)) : bool :=
          match l with
          | [] => true
-         | (_, c) :: r => (match c with Some y => lex_ok y | None => true end) && go r
+         | (_, c) :: r => (match c with Some y => image y | None => true end) && go r
          end) els
-  | _ => true
   end.
 
 (* ------------------------------------------------------------------ lexical adjacency *)
